@@ -1,0 +1,142 @@
+"""Verification tracer for ECAgent (add-only instrumentation, used by /verif).
+
+Active only when the environment variable ECAGENT_VERIF_TRACE names a file: every traced public operation appends one
+JSON line {op, args, out, pre, post} with the projected state before and after the call (also on the error path).
+With the variable unset nothing is installed and the library behaves exactly as without this module.
+"""
+import functools
+import json
+import os
+import sys
+
+PATH = os.environ.get("ECAGENT_VERIF_TRACE")
+_depth = [0]
+_seq = [0]
+_ran = []          # systems executed by the execute_systems call in progress (filled by the in-loop hook)
+FOREVER = 999999
+
+
+def _emit(rec):
+    _seq[0] += 1
+    rec["seq"] = _seq[0]
+    rec["pid"] = os.getpid()
+    try:
+        line = json.dumps(rec)
+    except Exception:  # noqa: BLE001
+        line = json.dumps({"seq": rec["seq"], "pid": rec["pid"], "op": rec.get("op"), "unsupported": True})
+    with open(PATH, "a") as f:
+        f.write(line + "\n")
+
+
+def _int(v):
+    if isinstance(v, bool) or not isinstance(v, int):
+        raise TypeError
+    return FOREVER if v >= sys.maxsize else v
+
+
+class _Serials:
+    """Small per-event names for object identities."""
+
+    def __init__(self):
+        self.d = {}
+
+    def of(self, o):
+        return self.d.setdefault(id(o), len(self.d) + 1)
+
+
+def ran_hook(system):
+    _ran.append(system)
+
+
+# ------------------------------------------------------------------ scheduler
+def _sched_state(sm, ser):
+    try:
+        q = [[str(s.id), ser.of(s), _int(s.priority), _int(s.start), _int(s.end), _int(s.frequency)] for s in sm.execution_queue]
+        reg = [[str(k), ser.of(v)] for k, v in sm.systems.items()]
+        status = "RUNNING" if sm.model.is_running() else "COMPLETE"
+        return {"queue": q, "reg": reg, "clock": _int(sm.timestep), "status": status}
+    except Exception:  # noqa: BLE001
+        return None
+
+
+def _wrap(cls, name, op, args_fn, state_fn, post_fn=None):
+    orig = cls.__dict__[name]
+
+    @functools.wraps(orig)
+    def wrapper(self, *a, **k):
+        if _depth[0] > 0:
+            return orig(self, *a, **k)
+        ser = _Serials()
+        try:
+            args = args_fn(self, ser, *a, **k)
+        except Exception:  # noqa: BLE001
+            args = None
+        pre = state_fn(self, ser)
+        mark = len(_ran)
+        _depth[0] += 1
+        out = "ok"
+        try:
+            return orig(self, *a, **k)
+        except BaseException as e:
+            out = type(e).__name__
+            raise
+        finally:
+            _depth[0] -= 1
+            rec = {"op": op, "args": args, "out": out, "pre": pre, "post": state_fn(self, ser)}
+            if post_fn is not None:
+                try:
+                    rec.update(post_fn(self, ser, mark))
+                except Exception:  # noqa: BLE001
+                    rec["unsupported"] = True
+            if args is None or pre is None or rec["post"] is None:
+                rec["unsupported"] = True
+            del _ran[mark:]
+            _emit(rec)
+
+    setattr(cls, name, wrapper)
+
+
+def install_core(ns):
+    SM, Model = ns["SystemManager"], ns["Model"]
+    ns["_verif_tracer"] = ran_hook
+    _wrap(SM, "add_system", "add_system",
+          lambda self, ser, s: {"id": str(s.id), "obj": ser.of(s), "prio": _int(s.priority), "start": _int(s.start),
+                                "end": _int(s.end), "freq": _int(s.frequency)}, _sched_state)
+    _wrap(SM, "remove_system", "remove_system", lambda self, ser, s_id: {"id": str(s_id)}, _sched_state)
+    _wrap(SM, "execute_systems", "execute_systems", lambda self, ser, throw_error=False: {"throw": bool(throw_error)},
+          _sched_state, lambda self, ser, mark: {"ran": [[str(s.id), ser.of(s)] for s in _ran[mark:]]})
+    _wrap(Model, "complete", "complete", lambda self, ser: {}, lambda self, ser: _sched_state(self.systems, ser))
+
+
+# ------------------------------------------------------------------ spatial worlds
+def _num4(v):
+    """Coordinates in quarter units (exact for the dyadic values the tests use)."""
+    q = v * 4
+    if q != int(q) or abs(q) > 10 ** 8:
+        raise TypeError
+    return int(q)
+
+
+def _space_state(env, ser):
+    try:
+        PC = sys.modules["ECAgent.Environments"].PositionComponent
+        grid = hasattr(env, "cells")
+        pos = []
+        for a in env.agents.values():
+            c = a.components.get(PC)
+            if c is not None:
+                pos.append([ser.of(a), [_num4(c.x), _num4(c.y), _num4(c.z)]])
+        return {"kind": "grid" if grid else "space", "off": _num4(env._index_offset),
+                "ext": [_num4(env.width), _num4(env.height), _num4(env.depth)], "wrap": bool(env.wrap_env),
+                "env": [[str(a.id), ser.of(a)] for a in env.agents.values()], "pos": pos}
+    except Exception:  # noqa: BLE001
+        return None
+
+
+def install_environments(ns):
+    SW = ns["SpaceWorld"]
+    _wrap(SW, "move", "move", lambda self, ser, agent, x=0, y=0, z=0: {"a": ser.of(agent), "d": [_num4(x), _num4(y), _num4(z)]}, _space_state)
+    _wrap(SW, "move_to", "move_to", lambda self, ser, agent, x=0, y=0, z=0: {"a": ser.of(agent), "p": [_num4(x), _num4(y), _num4(z)]}, _space_state)
+    _wrap(SW, "add_agent", "place", lambda self, ser, agent, x_pos=0, y_pos=0, z_pos=0:
+          {"a": ser.of(agent), "id": str(agent.id), "p": [_num4(x_pos), _num4(y_pos), _num4(z_pos)]}, _space_state)
+    _wrap(SW, "remove_agent", "leave_space", lambda self, ser, a_id: {"id": str(a_id)}, _space_state)
